@@ -98,9 +98,9 @@ def step (toks : List String) : String :=
     | some co, some ke, some cr, some ops =>
       runGroups (whApi ⟨co, ke, cr, b01 c2, b01 sa, b01 kp, b01 fx⟩) flagsStr ⟨b01 isy, b01 rc, b01 al⟩ ops []
     | _, _, _, _ => "bad-op"
-  | "S" :: ty :: sa :: kp :: isy :: rc :: al :: ops =>
+  | "S" :: ty :: sa :: kp :: ci :: isy :: rc :: al :: ops =>
     match ty.toNat?, ops.mapM groupOf with
-    | some ty, some ops => runGroups (sabaApi ⟨ty, b01 sa, b01 kp⟩) flagsStr ⟨b01 isy, b01 rc, b01 al⟩ ops []
+    | some ty, some ops => runGroups (sabaApi ⟨ty, b01 sa, b01 kp, b01 ci⟩) flagsStr ⟨b01 isy, b01 rc, b01 al⟩ ops []
     | _, _ => "bad-op"
   | ["FOOT"] => footStr
   | "M" :: sa :: isy :: rc :: rr :: ad :: atm :: ops =>
